@@ -255,8 +255,7 @@ def catchment_roundtrip(ctx, gridmod, ncases):
             cat.delineate_area(o, inl, nval=nr * nc + 2)
         except Exception:
             continue
-        if len(cat.idxcells_area) == 0:
-            continue
+        # (an empty area - outlet excluded by an inlet directly upstream, nothing draining to it - is a catchment too)
         d = cat.to_dict()
         case = {"nr": nr, "nc": nc, "fd": fd, "outlet": o, "inlets": inl}
         try:
